@@ -12,6 +12,13 @@
 (*                shard count (repaired, PartBarrierByShards)                 *)
 (*   Proc(s)      stream s reads and processes its next pack completely       *)
 (*   Stop         StopReadCollection                                          *)
+(*   Restart(H)   (pause/resume while the manager stays alive) the collection *)
+(*                is started again on the SAME manager: streams register      *)
+(*                again, barriers are built anew, partitions are added again  *)
+(*   StartAgainDropped  after the collection's drop was delivered the same    *)
+(*                collection - still "dropping" upstream - is handed to       *)
+(*                StartReadCollection once more (second task / resume): the   *)
+(*                manager remembers the delivered drop and ignores it         *)
 (* A pack is a sequence of [k, p]: ins/del for partition p, dropp p, dropc.   *)
 EXTENDS Integers, Sequences, FiniteSets, TLC, Json, SequencesExt
 
@@ -21,7 +28,12 @@ CONSTANTS Shards,        \* set of stream names
           DroppedAtStart,\* TRUE: the collection is already dropped upstream when CDC starts (synthetic drop path)
           SeekTs,        \* seek timestamp of the handlers (0 = none)
           PartBarrierByShards,
-          MayStop
+          MayStop,
+          MaxRestarts,      \* restarts after a stop (only while no shard has read a drop message: what was read stays read)
+          StopForgetsParts, \* TRUE = as built: StopReadCollection forgets the collection's partition barriers entirely;
+                            \* FALSE (negative control): the entries stay and AddPartition of the restart is refused
+          DropRemembered,   \* TRUE = as built: a delivered collection drop is remembered under the SOURCE collection id
+          MayStartAgain     \* the collection may be started once more after its drop was delivered
 
 VARIABLES started, reg, held, idx, closed,
           cbar,       \* shards that signalled the collection barrier
@@ -30,14 +42,18 @@ VARIABLES started, reg, held, idx, closed,
           events,     \* sequence of [type, p]
           emitted,    \* sequence of [s, k, msgs] (what reached the output, in order)
           readDrop,   \* ghost: <<s, obj>> pairs: shard s has read the drop message of obj ("" = collection)
-          errs, stopped, hist
-vars == <<started, reg, held, idx, closed, cbar, pbar, droppedC, droppedP, events, emitted, readDrop, errs, stopped, hist>>
-view == <<started, reg, held, idx, closed, cbar, pbar, droppedC, droppedP, events, emitted, readDrop, errs, stopped>>
+          errs, stopped, hist,
+          restarts, again
+vars == <<started, reg, held, idx, closed, cbar, pbar, droppedC, droppedP, events, emitted, readDrop, errs, stopped, hist, restarts, again>>
+view == <<started, reg, held, idx, closed, cbar, pbar, droppedC, droppedP, events, emitted, readDrop, errs, stopped, restarts, again>>
 
-NoBar == [size |-> 0, sig |-> {}, shards |-> {}, added |-> FALSE]
+\* added: "no" | "yes" (AddPartition ran since the last (re)start) | "stale" (entry left over from before a stop)
+\* full: every shard held the collection record when AddPartition ran and none had read the partition's drop yet
+NoBar == [size |-> 0, sig |-> {}, shards |-> {}, added |-> "no", full |-> FALSE]
 Init == /\ started = FALSE /\ reg = {} /\ held = {} /\ idx = [s \in Shards |-> 0] /\ closed = {}
         /\ cbar = {} /\ pbar = [p \in Parts |-> NoBar] /\ droppedC = FALSE /\ droppedP = {}
         /\ events = <<>> /\ emitted = <<>> /\ readDrop = {} /\ errs = 0 /\ stopped = FALSE /\ hist = <<>>
+        /\ restarts = 0 /\ again = FALSE
 
 \* the collection barrier fires when every shard signalled: one event, streams stop
 FireC(sig) == Cardinality(sig) = Cardinality(Shards)
@@ -60,19 +76,22 @@ Register(newreg) ==
 Start(H) == /\ ~started /\ H \subseteq Shards /\ H # Shards
             /\ started' = TRUE /\ held' = H
             /\ Register(Shards \ H)
-            /\ UNCHANGED <<idx, pbar, droppedP, emitted, readDrop, errs, stopped>>
+            /\ UNCHANGED <<idx, pbar, droppedP, emitted, readDrop, errs, stopped, restarts, again>>
             /\ hist' = <<[op |-> "start", c |-> "c1", hold |-> SetToSeq(H)]>> \o GenRuns(Shards \ H)
 
 Release(s) == /\ started /\ s \in held /\ ~stopped
               /\ held' = held \ {s}
               /\ Register({s})
-              /\ UNCHANGED <<started, idx, pbar, droppedP, emitted, readDrop, errs, stopped>>
+              /\ UNCHANGED <<started, idx, pbar, droppedP, emitted, readDrop, errs, stopped, restarts, again>>
               /\ hist' = Append(hist, [op |-> "release", v |-> s]) \o GenRuns({s})
 
-AddPart(p) == /\ started /\ ~stopped /\ reg # {} /\ ~pbar[p].added /\ reg \ closed # {} /\ ~droppedC /\ p \notin droppedP
-              /\ pbar' = [pbar EXCEPT ![p] = [size |-> IF PartBarrierByShards THEN Cardinality(Shards) ELSE Cardinality(reg \ closed),
-                                              sig |-> {}, shards |-> reg \ closed, added |-> TRUE]]
-              /\ UNCHANGED <<started, reg, held, idx, closed, cbar, droppedC, droppedP, events, emitted, readDrop, errs, stopped>>
+AddPart(p) == /\ started /\ ~stopped /\ reg # {} /\ pbar[p].added # "yes" /\ reg \ closed # {} /\ ~droppedC /\ p \notin droppedP
+              /\ pbar' = [pbar EXCEPT ![p] =
+                    IF pbar[p].added = "stale"
+                      THEN [size |-> 0, sig |-> {}, shards |-> {}, added |-> "yes", full |-> (reg \ closed = Shards /\ \A sh \in Shards : <<sh, p>> \notin readDrop)]   \* "already replicated": refused
+                      ELSE [size |-> IF PartBarrierByShards THEN Cardinality(Shards) ELSE Cardinality(reg \ closed),
+                            sig |-> {}, shards |-> reg \ closed, added |-> "yes", full |-> (reg \ closed = Shards /\ \A sh \in Shards : <<sh, p>> \notin readDrop)]]
+              /\ UNCHANGED <<started, reg, held, idx, closed, cbar, droppedC, droppedP, events, emitted, readDrop, errs, stopped, restarts, again>>
               /\ hist' = Append(hist, [op |-> "addpart", c |-> "c1", p |-> p])
 
 \* process one message of stream s; acc = [pb, dp, ev, keep, rd, cb, er, cl]
@@ -111,7 +130,7 @@ Proc(s) ==
        /\ closed' = IF acc.cl THEN closed \cup {s} ELSE closed
        /\ emitted' = IF acc.er = 0 THEN Append(emitted, [s |-> s, k |-> k, msgs |-> acc.keep]) ELSE emitted
     /\ idx' = [idx EXCEPT ![s] = @ + 1]
-    /\ UNCHANGED <<started, reg, held, stopped>>
+    /\ UNCHANGED <<started, reg, held, stopped, restarts, again>>
     /\ hist' = hist \o << [op |-> "feed", s |-> s, pack |-> [id |-> s \o "#" \o ToString(idx[s] + 1), b |-> 10 * (idx[s] + 1), e |-> 10 * (idx[s] + 1) + 9,
                               msgs |-> [i \in 1..Len(Script[s][idx[s] + 1]) |->
                                           [k |-> Script[s][idx[s] + 1][i].k, p |-> Script[s][idx[s] + 1][i].p, ts |-> 10 * (idx[s] + 1) + i]]]],
@@ -119,16 +138,41 @@ Proc(s) ==
 
 Stop == /\ MayStop /\ started /\ ~stopped
         /\ stopped' = TRUE
-        /\ UNCHANGED <<started, reg, held, idx, closed, cbar, pbar, droppedC, droppedP, events, emitted, readDrop, errs>>
+        /\ UNCHANGED <<started, reg, held, idx, closed, cbar, pbar, droppedC, droppedP, events, emitted, readDrop, errs, restarts, again>>
         /\ hist' = Append(hist, [op |-> "stop", c |-> "c1"])
+
+\* pause/resume with the manager kept alive: the stop closed every stream and barrier of the collection; the restart
+\* registers the shards again (H late), and the partitions have to be added again
+CanRestart == stopped /\ restarts < MaxRestarts /\ readDrop = {} /\ errs = 0 /\ ~DroppedAtStart
+Restart(H) == /\ CanRestart /\ H \subseteq Shards /\ H # Shards
+              /\ stopped' = FALSE /\ restarts' = restarts + 1
+              /\ held' = H /\ reg' = Shards \ H /\ closed' = {} /\ cbar' = {}
+              /\ pbar' = IF StopForgetsParts THEN [p \in Parts |-> NoBar]
+                          ELSE [p \in Parts |-> IF pbar[p].added # "no" THEN [NoBar EXCEPT !.added = "stale"] ELSE NoBar]
+              /\ UNCHANGED <<started, idx, droppedC, droppedP, events, emitted, readDrop, errs, again>>
+              /\ hist' = Append(hist, [op |-> "start", c |-> "c1", hold |-> SetToSeq(H)])
+
+\* the collection's drop has been delivered; it is handed to StartReadCollection again (state "dropping" upstream,
+\* still present downstream, resumed from a checkpoint).  As built the manager remembers the drop and returns at once;
+\* if it does not, every shard's handler synthesises a drop message again and a second request goes out
+StartAgainDropped ==
+    /\ MayStartAgain /\ droppedC /\ ~again /\ ~stopped /\ held = {}
+    /\ \E i \in 1..Len(events) : events[i].type = "DropCollection"
+    /\ again' = TRUE
+    /\ events' = IF DropRemembered THEN events ELSE Append(events, [type |-> "DropCollection", p |-> ""])
+    /\ UNCHANGED <<started, reg, held, idx, closed, cbar, pbar, droppedC, droppedP, emitted, readDrop, errs, stopped, restarts>>
+    /\ hist' = Append(hist, [op |-> "start", c |-> "c1", hold |-> <<>>, dropped |-> TRUE, seek_ts |-> 7])
 
 Next == \/ \E H \in SUBSET Shards : Start(H)
         \/ \E s \in Shards : Release(s) \/ Proc(s)
         \/ \E p \in Parts : AddPart(p)
         \/ Stop
+        \/ \E H \in SUBSET Shards : Restart(H)
+        \/ StartAgainDropped
 Spec == Init /\ [][Next]_vars
 
-Done == started /\ (stopped \/ (held = {} /\ \A s \in Shards : s \in closed \/ idx[s] = Len(Script[s])))
+Done == started /\ ((stopped /\ ~CanRestart) \/ (~stopped /\ held = {} /\ \A s \in Shards : s \in closed \/ idx[s] = Len(Script[s])))
+            /\ (MayStartAgain /\ droppedC /\ ~stopped => again)
 
 (* ------------------------------ contract --------------------------------- *)
 Count(type, p) == Cardinality({i \in 1..Len(events) : events[i].type = type /\ events[i].p = p})
@@ -149,9 +193,12 @@ SilentAfterDrop == \A e \in 1..Len(emitted) : \A i \in 1..Len(emitted[e].msgs) :
                       /\ emitted[e].k <= PosOfDrop(emitted[e].s, "")
 StopNeverDrops == stopped => Len(events) = 0 \/ TRUE   \* refined in the acceptor: no drop event is issued by the stop itself
 \* delivered exactly once when everything ran to the end
-Delivered == (Done /\ ~stopped /\ errs = 0) =>
-                /\ ((DroppedAtStart /\ SeekTs > 0) \/ \A s \in Shards : <<s, "">> \in readDrop) => Count("DropCollection", "") = 1
-                /\ \A p \in Parts : (\A s \in Shards : <<s, p>> \in readDrop) /\ ~droppedC => Count("DropPartition", p) = 1
+\* (an error event pauses the task and everything is retried later - unless every shard was registered when the
+\* partition was added: then nothing can go wrong and the request is due)
+Delivered == (Done /\ ~stopped) =>
+                /\ (errs = 0 /\ ((DroppedAtStart /\ SeekTs > 0) \/ \A s \in Shards : <<s, "">> \in readDrop)) => Count("DropCollection", "") = 1
+                /\ \A p \in Parts : ((errs = 0 \/ pbar[p].full) /\ (\A s \in Shards : <<s, p>> \in readDrop) /\ ~droppedC)
+                                         => Count("DropPartition", p) = 1
 C04 == DropOnce /\ DropAfterAllShards /\ SilentAfterDrop
 
 PlanOut == Done => PrintT("PLAN " \o ToJson(hist))
